@@ -45,6 +45,25 @@ def gen_ctor(tier, rnd):
             if srt and n >= 2:
                 for d in range(0, 3):
                     cases.append({"k": "ctor", "v": fsl(tup), "deg": d})
+    # unsorted rearrangements of VALID vectors (same multiset, hence the same counts): all must be rejected
+    import itertools as _it
+    for v in shape_vectors(3, 2, pmin=1):
+        U, p = v["U"], v["p"]
+        if len(U) > 11 or (tier == "quick" and rnd.random() < 0.5):
+            continue
+        seen = set()
+        for _ in range(6 if tier == "quick" else 20):
+            w = list(U)
+            i, j = rnd.sample(range(len(w)), 2)
+            w[i], w[j] = w[j], w[i]
+            if rnd.random() < 0.5:
+                i, j = rnd.sample(range(len(w)), 2)
+                w[i], w[j] = w[j], w[i]
+            if w == sorted(w) or tuple(w) in seen:
+                continue
+            seen.add(tuple(w))
+            cases.append({"k": "ctor", "v": fsl(w), "deg": None})
+            cases.append({"k": "ctor", "v": fsl(w), "deg": p})
     # malformed literals
     for v in (["0/1", None, "1/1"], [None], [], ["0/1"], ["1/1", "1/1"], ["0/1", "0/1", "1/1", "1/1", "2/1"],
               ["0/1", "1/1", "2/1", "3/1"], ["0/1", "0/1", "0/1", "1/1", "1/1"], ["0/1", "0/1", "1/1", "1/1", "1/1"],
